@@ -230,15 +230,17 @@ class ParseMCNPCell:
     def parse_keywords(self, kw_list):
         '''Parse the list of keywords following the cell definition.'''
         keywords = defaultdict(lambda: None)
+        imp_by_particle = {}
         while kw_list:
             elt = kw_list.pop()
             if elt.startswith('imp'):
                 importance = float(kw_list.pop())
-                if 'importance' in keywords:
-                    keywords['importance'] = max(importance,
-                                                 keywords['importance'])
-                else:
-                    keywords['importance'] = importance
+                # a later IMP entry (the BUT part of LIKE n BUT) replaces an
+                # earlier one for the same particle; the cell is kept if it
+                # is important for at least one particle
+                for particle in elt[3:].lstrip(':').split(','):
+                    imp_by_particle[particle] = importance
+                keywords['importance'] = max(imp_by_particle.values())
             elif 'fill' in elt:
                 f_bounds, f_univs, f_params = self.parse_fill_kw(elt, kw_list)
                 keywords['f_bounds'] = f_bounds
